@@ -1641,6 +1641,189 @@ class LemmaRhatPermutation(_RhatLemma):
                 ('R-hat(reordered chains) = R-hat(chains)', rhat2_of(s.n, m, s.SS2(m), s.SB2(m)) == rhat2_of(s.n, m, s.SS(m), s.SB(m)))]
 
 
+# ---------------------------------------------------------------- invariance of ESS (lemmas over the definitional sums of EssOneChain / EssMultiChain)
+def stmt_affine_lag(n, t, x, a, b, mu, Q, Q2):
+    """acov_t(a x + b) = a^2 acov_t(x), as sums of lagged products of deviations (the mean of a x + b being a mu + b)"""
+    d = lambda i: x(i) - mu
+    d2 = lambda i: a * x(i) + b - (a * mu + b)
+    hyp = z3.And(0 <= t, t <= n, prefix_def(Q, n - t, lambda i: d(i) * d(i + t)), prefix_def(Q2, n - t, lambda i: d2(i) * d2(i + t)))
+    return hyp, Q2(n - t) == a * a * Q(n - t)
+
+
+class LemmaAffineLag(_LoopLemma):
+    """acov_t(a x + b) = a^2 acov_t(x): the sum of lag-t products of the deviations of a x + b from a mu + b is a^2 * (that of x from mu)"""
+    target = '@verif/lemmas/c16_lemmas.py::lemma_affine_lag'
+    prop = 'C16'
+
+    def _mk(self, vc):
+        n, t = z3.Ints('n t')
+        a, b, mu = z3.Reals('a b mu')
+        x, Q, Q2 = [z3.Function(nm, I, R) for nm in ('x', 'Q', 'Q2')]
+        hyp, goal = stmt_affine_lag(n, t, x, a, b, mu, Q, Q2)
+        vc.fin_bounds.extend([n, t])
+        s = ns(n=n, t=t, a=a, b=b, mu=mu, x=x, Q=Q, Q2=Q2, hyp=hyp, goal=goal, args=(SInt(n), SInt(t)))
+        vc._lemma_s = s
+        return s
+
+    def _instances(self, s, j):
+        d = lambda i: s.x(i) - s.mu
+        d2 = lambda i: s.a * s.x(i) + s.b - (s.a * s.mu + s.b)
+        return [z3.Implies(z3.And(0 <= j, j < s.n - s.t), z3.And(prefix_inst(s.Q, lambda i: d(i) * d(i + s.t), j), prefix_inst(s.Q2, lambda i: d2(i) * d2(i + s.t), j)))]
+
+    loops = {0: Loop(inv=lambda s, l: [z3.And(0 <= T(l.j), T(l.j) <= s.n - s.t), s.Q2(T(l.j)) == s.a * s.a * s.Q(T(l.j))])}
+
+
+def ess_rho_of(n, m, SSm, SBm, SAm):
+    """rho_t of the ESS definition from the three sums over the m chains: SSm = sum_c s2_c, SBm = sum_c (mu_c - G)^2, SAm = sum_c acov_c(t);
+    between-chain variance 0 for a single chain.  Returns (rho_t, var+)"""
+    nr, mr = z3.ToReal(n), z3.ToReal(m)
+    Wv, Bv = SSm / mr, z3.If(m == 1, z3.RealVal(0), nr * (SBm / (mr - 1)))
+    vp = ((nr - 1) * Wv + Bv) / nr
+    return 1 - (Wv - SAm / mr) / vp, vp
+
+
+class _EssLemma(Contract):
+    prop = 'C16'
+    fin = 4
+
+    def _fns(self):
+        return [z3.Function(nm, I, R) for nm in ('MU', 'S2', 'ACt', 'SG', 'SG2', 'SB', 'SB2', 'SS', 'SS2', 'SA', 'SA2')]
+
+
+class LemmaEssAffine(_EssLemma):
+    """rho_t of a x + b (a != 0) = rho_t of x at every lag t (m >= 1 chains of length n), from the three moment lemmas"""
+    target = '@verif/lemmas/c16_lemmas.py::lemma_ess_affine'
+
+    def setup(self, vc):
+        n, m = z3.Ints('n m')
+        a, b = z3.Reals('a b')
+        vc.fin_bounds.extend([n, m])
+        MU, S2, ACt, SG, SG2, SB, SB2, SS, SS2, SA, SA2 = self._fns()
+        G = SG(m) / z3.ToReal(m)
+        s = ns(n=n, m=m, a=a, b=b, MU=MU, S2=S2, ACt=ACt, SG=SG, SG2=SG2, SB=SB, SB2=SB2, SS=SS, SS2=SS2, SA=SA, SA2=SA2, G=G)
+        # chain c of a x + b has mean a MU(c) + b, variance a^2 S2(c) and lag-t autocovariance a^2 ACt(c), t the generic lag of this
+        # lemma  (LemmaAffineSum / LemmaAffineSS / LemmaAffineLag per chain; the divisors n, n - 1, n - t are those of x)
+        s.L1 = stmt_affine_sum(m, MU, a, b, SG, SG2)
+        s.L2 = stmt_affine_ss(m, MU, a, b, G, SB, SB2)
+        s.L3 = stmt_affine_sum(m, S2, a * a, z3.RealVal(0), SS, SS2)
+        s.L4 = stmt_affine_sum(m, ACt, a * a, z3.RealVal(0), SA, SA2)
+        s.rho, s.vp = ess_rho_of(n, m, SS(m), SB(m), SA(m))
+        s.rho2, s.vp2 = ess_rho_of(n, m, SS2(m), SB2(m), SA2(m))
+        vc._s = s
+        return s, (), {}
+
+    def env(self, vc):
+        s = vc._s
+        return dict(use_affine_grand_mean=lambda: vc.assume(use(s.L1)), use_affine_between=lambda: vc.assume(use(s.L2)),
+                    use_affine_within=lambda: vc.assume(use(s.L3)), use_affine_autocov=lambda: vc.assume(use(s.L4)))
+
+    def requires(self, s):
+        return [s.n >= 2, s.m >= 1, s.a != 0, s.L1[0], s.L2[0], s.L3[0], s.L4[0], ('the pooled variance is positive', s.vp > 0)]
+
+    def ensures(self, s, result):
+        m, a2 = s.m, s.a * s.a
+        return [('grand mean of the transformed chains = a G + b (so SB2 is their between-chain sum of squares)', s.SG2(m) / z3.ToReal(m) == s.a * s.G + s.b),
+                ('B, W and the mean lag-t autocovariance scale by a^2', z3.And(s.SB2(m) == a2 * s.SB(m), s.SS2(m) == a2 * s.SS(m), s.SA2(m) == a2 * s.SA(m))),
+                ('var+ scales by a^2 (and stays positive)', z3.And(s.vp2 == a2 * s.vp, s.vp2 > 0)),
+                ('rho_t(a x + b) = rho_t(x)', s.rho2 == s.rho)]
+
+
+class LemmaEssPermutation(_EssLemma):
+    """rho_t of the reordered chains = rho_t of the chains at every lag t (permutation invariance of finite sums, L2a)"""
+    target = '@verif/lemmas/c16_lemmas.py::lemma_ess_permutation'
+
+    def setup(self, vc):
+        n, m = z3.Ints('n m')
+        vc.fin_bounds.extend([n, m])
+        MU, S2, ACt, SG, SG2, SB, SB2, SS, SS2, SA, SA2 = self._fns()
+        pi, pinv = z3.Function('chain_perm', I, I), z3.Function('chain_perm_inv', I, I)
+        G = SG(m) / z3.ToReal(m)
+        dev = lambda c: (MU(c) - G) * (MU(c) - G)
+        s = ns(n=n, m=m, pi=pi, pinv=pinv, SG=SG, SG2=SG2, SB=SB, SB2=SB2, SS=SS, SS2=SS2, SA=SA, SA2=SA2, G=G)
+        # chain c of the reordered chains is chain pi(c) of the original ones: its moments are MU(pi(c)), S2(pi(c)), ACt(pi(c))
+        s.defs = [prefix_def(SG, m, MU), prefix_def(SG2, m, lambda j: MU(pi(j))), prefix_def(SB, m, dev), prefix_def(SB2, m, lambda j: dev(pi(j))),
+                  prefix_def(SS, m, S2), prefix_def(SS2, m, lambda j: S2(pi(j))), prefix_def(SA, m, ACt), prefix_def(SA2, m, lambda j: ACt(pi(j)))]
+        s.PI = forall_range(0, m, lambda i: z3.And(0 <= pi(i), pi(i) < m, pinv(pi(i)) == i, 0 <= pinv(i), pinv(i) < m, pi(pinv(i)) == i), 'i')
+        s.L = [L2a_perm_sum(m, pi, pinv, MU, SG, SG2), L2a_perm_sum(m, pi, pinv, dev, SB, SB2), L2a_perm_sum(m, pi, pinv, S2, SS, SS2),
+               L2a_perm_sum(m, pi, pinv, ACt, SA, SA2)]
+        s.rho, s.vp = ess_rho_of(n, m, SS(m), SB(m), SA(m))
+        s.rho2, s.vp2 = ess_rho_of(n, m, SS2(m), SB2(m), SA2(m))
+        vc._s = s
+        return s, (), {}
+
+    def env(self, vc):
+        s = vc._s
+        return dict(use_perm_grand_mean=lambda: vc.assume(s.L[0]), use_perm_between=lambda: vc.assume(s.L[1]),
+                    use_perm_within=lambda: vc.assume(s.L[2]), use_perm_autocov=lambda: vc.assume(s.L[3]))
+
+    def requires(self, s):
+        return [s.n >= 2, s.m >= 1, ('pi is a permutation of the chains', s.PI)] + s.defs
+
+    def ensures(self, s, result):
+        m = s.m
+        return [('grand mean unchanged (so SB2 is the between-chain sum of squares of the reordered chains)', s.SG2(m) / z3.ToReal(m) == s.G),
+                ('B, W and the mean lag-t autocovariance unchanged', z3.And(s.SB2(m) == s.SB(m), s.SS2(m) == s.SS(m), s.SA2(m) == s.SA(m))),
+                ('rho_t(reordered chains) = rho_t(chains)', z3.And(s.rho2 == s.rho, s.vp2 == s.vp))]
+
+
+def ess_exit(n, T_, NNf, rho):
+    """T is 'the first lag whose rho is negative, or n' (the exit clause of EssOneChain / EssMultiChain)"""
+    return z3.And(1 <= T_, T_ <= n, NNf(T_), z3.Or(T_ == n, rho(T_) < 0))
+
+
+class LemmaEssSameRho(_LoopLemma):
+    """equal rho_t at every lag give the same exit lag and the same ESS"""
+    target = '@verif/lemmas/c16_lemmas.py::lemma_ess_same_rho'
+    prop = 'C16'
+
+    def _mk(self, vc):
+        n, T_, m = z3.Ints('n T m')
+        rho, rho2, RSf, RS2f = [z3.Function(nm, I, R) for nm in ('rho', 'rho2', 'RS', 'RS2')]
+        NNf, NN2f = z3.Function('NN', I, B), z3.Function('NN2', I, B)
+        vc.fin_bounds.extend([n, T_])
+        hyp = z3.And(1 <= T_, T_ <= n, m >= 1, forall_range(1, n, lambda t: rho2(t) == rho(t), 't'),
+                     RSf(1) == 0, RS2f(1) == 0, NNf(1), NN2f(1),
+                     forall_range(1, n, lambda t: z3.And(RSf(t + 1) == RSf(t) + rho(t), RS2f(t + 1) == RS2f(t) + rho2(t)), 't'),
+                     forall_range(1, n, lambda t: z3.And(NNf(t + 1) == z3.And(NNf(t), rho(t) >= 0), NN2f(t + 1) == z3.And(NN2f(t), rho2(t) >= 0)), 't'))
+        s = ns(n=n, T=T_, m=m, rho=rho, rho2=rho2, RS=RSf, RS2=RS2f, NN=NNf, NN2=NN2f, hyp=hyp, goal=None, args=(SInt(T_),))
+        vc._lemma_s = s
+        return s
+
+    def _instances(self, s, j):
+        return [z3.Implies(z3.And(1 <= j, j < s.n), z3.And(s.rho2(j) == s.rho(j), s.RS(j + 1) == s.RS(j) + s.rho(j), s.RS2(j + 1) == s.RS2(j) + s.rho2(j),
+                                                           s.NN(j + 1) == z3.And(s.NN(j), s.rho(j) >= 0), s.NN2(j + 1) == z3.And(s.NN2(j), s.rho2(j) >= 0)))]
+
+    loops = {0: Loop(inv=lambda s, l: [z3.And(1 <= T(l.j), T(l.j) <= s.T), s.RS2(T(l.j)) == s.RS(T(l.j)), s.NN2(T(l.j)) == s.NN(T(l.j))])}
+
+    def ensures(self, s, result):
+        Tn, mn = s.T, z3.ToReal(s.m) * z3.ToReal(s.n)
+        return [('the running sums and the non-negativity flags agree at T', z3.And(s.RS2(Tn) == s.RS(Tn), s.NN2(Tn) == s.NN(Tn))),
+                ('T is the exit lag of the transformed chains iff it is the exit lag of the chains', ess_exit(s.n, Tn, s.NN2, s.rho2) == ess_exit(s.n, Tn, s.NN, s.rho)),
+                ('ESS(transformed chains) = ESS(chains):  m n / (1 + 2 RS\'(T)) = m n / (1 + 2 RS(T))', mn / (1 + 2 * s.RS2(Tn)) == mn / (1 + 2 * s.RS(Tn)))]
+
+
+class LemmaEssExitUnique(_LoopLemma):
+    """the exit lag is unique (so ESS is a function of the chains): no two lags T1 < T2 are both 'the first lag with rho < 0, or n'"""
+    target = '@verif/lemmas/c16_lemmas.py::lemma_ess_exit_unique'
+    prop = 'C16'
+
+    def _mk(self, vc):
+        n, T1, T2 = z3.Ints('n T1 T2')
+        rho = z3.Function('rho', I, R)
+        NNf = z3.Function('NN', I, B)
+        vc.fin_bounds.extend([n, T1, T2])
+        hyp = z3.And(1 <= T1, T1 < T2, T2 <= n, NNf(1), forall_range(1, n, lambda t: NNf(t + 1) == z3.And(NNf(t), rho(t) >= 0), 't'),
+                     ess_exit(n, T1, NNf, rho))
+        s = ns(n=n, T1=T1, T2=T2, rho=rho, NN=NNf, hyp=hyp, goal=z3.Not(ess_exit(n, T2, NNf, rho)), args=(SInt(T1), SInt(T2)))
+        vc._lemma_s = s
+        return s
+
+    def _instances(self, s, j):
+        return [z3.Implies(z3.And(1 <= j, j < s.n), s.NN(j + 1) == z3.And(s.NN(j), s.rho(j) >= 0))]
+
+    loops = {0: Loop(inv=lambda s, l: [z3.And(s.T1 + 1 <= T(l.j), T(l.j) <= s.T2), z3.Implies(s.NN(T(l.j)), s.rho(s.T1) >= 0)])}
+
+
 # ================================================================ 5. sample_object_to_dict / numpy_to_python_type
 Obj = z3.DeclareSort('Obj')
 KIND = z3.Function('kind', Obj, I)            # 0 python non-dict, 1 python dict, 2 numpy array, 3 numpy integer scalar, 4 numpy floating scalar, 5 other numpy type
@@ -2088,6 +2271,7 @@ class RhatCas(CasContract):
 CONTRACTS = [SampleInit('plain'), SampleInit('weighted'), SamplesArray(), NSamples(), Dim(), Discrepancies(True), Discrepancies(False),
              SampleMeans(True), SampleMeans(False), SampleCIs(True), SampleCIs(False), SampleQuantiles(True), SampleQuantiles(False), SumExt(),
              BolfiInit(), BolfireInit(), GelmanRubin(), GelmanRubin('1/100000', 'finitised-at-scale-1e-5'), RhatCas(), EssOneChain('1d'), EssOneChain('2d'), EssMultiChain(2), EssMultiChain(3), MonotoneCum(), LemmaAffineSum(), LemmaAffineSS(), LemmaRhatAffine(), LemmaRhatPermutation(),
+             LemmaAffineLag(), LemmaEssAffine(), LemmaEssPermutation(), LemmaEssSameRho(), LemmaEssExitUnique(),
              NumpyToPython(), SampleObjectToDict('given'), SampleObjectToDict('default')]
 
 TRUSTED_BASE = ['pyvc engine: proxies, loop cutting, numpy spec table (np.sum / np.mean / np.average = mathematical finite sum by prefix recursion; slices, '
